@@ -227,6 +227,7 @@ def check_case(ctx, idx, kind, pos, shape, verbose, ctxno, cli=False):
         if [e.callname for e in exs] != [cn for cn, _, _ in expect]:
             bad('collection', 'collected %r, expected %r' % ([e.callname for e in exs], [cn for cn, _, _ in expect]))
             return
+        rendered_first = []
         for e, (cn, kd, marker) in zip(exs, expect):
             ctx.evaluation()
             e.mode = 'native'
@@ -297,6 +298,32 @@ def check_case(ctx, idx, kind, pos, shape, verbose, ctxno, cli=False):
                     ok = False
                     continue
                 ctx.cell('rendered')
+                rendered_first.append((e, cn, tn, marker, n, rep))
+        # the same reports once more, now that the remaining doctests of the module have run: type, marker and line
+        # are still there (a report may be asked for at the end of a session)
+        for e, cn, tn, marker, n, rep in rendered_first:
+            try:
+                with contextlib.redirect_stdout(io.StringIO()):
+                    lines2 = e.repr_failure()
+                rep2 = '\n'.join(lines2)
+            except BaseException as ex:
+                bad('render-raised', 'repr_failure() of %s, asked for a second time after the other doctests ran, raised '
+                    '%s: %r' % (cn, type(ex).__name__, ex), exc=type(ex).__name__)
+                ok = False
+                continue
+            ctx.event('failure_reports_rendered_again')
+            if rep2 == rep:
+                ctx.event('second_rendering_identical')
+            n2 = None
+            for ln in lines2:
+                mm = LINE_RE.search(ln)
+                if mm and mm.group(1) == path:
+                    n2 = int(mm.group(2))
+                    break
+            if (tn and ('REASON: ' + tn) not in rep2) or marker not in rep2 or n2 != n:
+                bad('render-unstable', 'the report of %s rendered after the other doctests ran no longer names the type %s / '
+                    'the failing line %d (%s); it points at %r:\n%s' % (cn, tn, n, marker, n2, rep2[:1200]))
+                ok = False
         # ------------------------------------------------ runner 2: runner.doctest_module
         ctx.evaluation()
         buf = io.StringIO()
